@@ -18,6 +18,18 @@
 //   contracts (README pitfall 5); the contracts are proved by c18_find_max_contract /
 //   c18_wrapping_sum_contract below.
 // * `StreamInfo::new` and `FrameHeader::new` are covered by datatype::verif::c17_*.
+// * error VALUES are abstracted (`format!` and `VerifyError::within` stubbed): only Ok/Err matters.
+//
+// Proof architecture (each arrow is a unit family; all on the bounded shapes listed per unit)
+//   X::new total; Ok ==> F(c)              c18_*_new*        (F: facts about the accessors)
+//   verify() total on arbitrary fields,
+//   verify() Ok <==> wf(c)                  c18_*_verify_gate* (wf: spec predicate, RFC + crate limits)
+//   wf(c) ==> count_bits()/write() do not panic and agree (and the header fields are in place)
+//                                           c18_*_verify_gate*, c18_residual_new_ok_*
+//   F(c) is wf(c) given that component-typed arguments are public values (verify() Ok)
+// `Residual`, `Constant`, `Verbatim`, `QuantizedParameters`, `MetadataBlockData` are additionally
+// checked end-to-end (new -> verify -> write) in one unit; for `FixedLpc` / `Lpc` the end-to-end
+// instance exceeds 400 s even for a 2-sample residual, hence the split.
 
 use crate::bitsink::verif::SpecSink;
 
@@ -82,12 +94,17 @@ fn c18_wrapping_sum_contract() {
 // Shared helpers
 // ================================================================================================
 
+/// Replacement for `VerifyError::within` (appends a path component to an error value): the
+/// harnesses only observe `is_ok()/is_err()`, and growing a `Vec<String>` that is merged over
+/// ~30 error paths dominates `FixedLpc::verify` / `Lpc::verify` otherwise (260 s -> 31 s).
+fn stub_within(e: VerifyError, _component: &str) -> VerifyError {
+    e
+}
+
 /// A user sink that only measures: every primitive operation checks its own pre-condition (no
-/// more bits than the value type has) and advances the length.  It overrides `write_zeros` the
-/// way `MemSink` does.  Components that contain a `Residual` are serialised into it: all panics /
-/// overflows / index errors inside the component's `write` stay visible, while the bit CONTENTS
-/// (RFC layout) of well-formed components are the subject of bitrepr::verif_sub (C02/C08), which
-/// needs `SpecSink` and is ~10x more expensive per written sample.
+/// more bits than the value type has) and advances the length; `write_zeros` is overridden the
+/// way `MemSink` does.  All panics / overflows / index errors inside a component's `write` stay
+/// visible; the bit CONTENTS of well-formed components are bitrepr::verif_sub (C02/C08).
 struct LenSink {
     len: usize,
 }
@@ -120,7 +137,7 @@ impl BitSink for LenSink {
 }
 
 /// `count_bits()` does not panic, `write` succeeds without panicking and delivers exactly
-/// `count_bits()` bits (length only).
+/// `count_bits()` bits (length only; every quotient value).
 fn serialises_len<T: BitRepr>(c: &T) -> usize {
     let n = c.count_bits();
     let mut s = LenSink { len: 0 };
@@ -138,45 +155,137 @@ fn serialises<T: BitRepr>(c: &T) -> SpecSink {
     s
 }
 
-/// Bits `[pos, pos + n)` of the written string as an integer (n <= 32, pos + n <= 64).
+/// Bits `[pos, pos + n)` of the written string as an integer (1 <= n <= 32, pos + n <= 64).
 fn field(s: &SpecSink, pos: usize, n: usize) -> u64 {
     (s.id.w[0] << pos) >> (64 - n)
 }
 
-/// What an RFC 9639 decoder needs of a RESIDUAL (section 9.2.7) in the 4-bit-parameter coding this
-/// crate writes, stated on the component's fields: partition order <= 15 with 2^order parameters,
-/// the block is split evenly, the warm-up samples all lie in the first partition, parameters are
-/// not the escape code (<= 14), every remainder fits its parameter, and the padding of the warm-up
-/// samples is zero.  Returns the number of bits of the coded residual.
-fn spec_residual_wellformed(res: &Residual) -> u64 {
+// ================================================================================================
+// Specification predicates (from RFC 9639 and the crate's documented limits, not from the code)
+// ================================================================================================
+
+/// The sample widths a sub-frame can have in this crate: 8..=24 in steps of 4, plus one for a
+/// side channel.
+fn spec_bps(bps: usize) -> bool {
+    8 <= bps && bps <= 25 && (bps % 4 == 0 || bps % 4 == 1)
+}
+
+/// RESIDUAL (RFC 9639 section 9.2.7, 4-bit parameters): partition order <= 15 with 2^order
+/// parameters, block (<= 32767) split evenly, the warm-up samples all in the first partition,
+/// no parameter is the escape code (<= 14), every remainder fits its parameter, the padding of
+/// the warm-up samples is zero, and the cached sums are the sums.  Some(size in bits) / None.
+fn spec_residual_bits(res: &Residual) -> Option<u64> {
     let order = res.partition_order as usize;
-    assert!(order <= 15);
+    if order > 15 {
+        return None;
+    }
     let nparts = 1usize << order;
-    assert!(res.rice_params.len() == nparts);
-    assert!(res.quotients.len() == res.block_size);
-    assert!(res.remainders.len() == res.block_size);
-    assert!(res.block_size <= 32767);
-    assert!(res.block_size % nparts == 0);
-    let part_len = res.block_size / nparts;
-    assert!(res.warmup_length <= part_len);
+    let bs = res.block_size;
+    if res.rice_params.len() != nparts || res.quotients.len() != bs || res.remainders.len() != bs {
+        return None;
+    }
+    if bs > 32767 || bs % nparts != 0 {
+        return None;
+    }
+    let part_len = bs / nparts;
+    if res.warmup_length > part_len {
+        return None;
+    }
     let mut bits: u64 = 6 + 4 * nparts as u64;
+    let mut sum_p = 0usize;
     let mut i = 0;
-    while i < res.rice_params.len() {
-        assert!(res.rice_params[i] <= 14);
+    while i < nparts {
+        if res.rice_params[i] > 14 {
+            return None;
+        }
+        sum_p += res.rice_params[i] as usize;
         i += 1;
     }
+    let mut sum_q = 0usize;
     let mut t = 0;
-    while t < res.block_size {
+    while t < bs {
         if t < res.warmup_length {
-            assert!(res.quotients[t] == 0 && res.remainders[t] == 0);
+            if res.quotients[t] != 0 || res.remainders[t] != 0 {
+                return None;
+            }
         } else {
             let p = res.rice_params[t / part_len];
-            assert!((res.remainders[t] as u64) < (1u64 << p));
+            if (res.remainders[t] as u64) >= (1u64 << p) {
+                return None;
+            }
             bits += res.quotients[t] as u64 + 1 + p as u64;
         }
+        sum_q += res.quotients[t] as usize;
         t += 1;
     }
-    bits
+    if res.sum_quotients != sum_q || res.sum_rice_params != sum_p {
+        return None;
+    }
+    Some(bits)
+}
+
+/// Quantised LPC parameters as the LPC sub-frame header can carry them (RFC 9639 section 9.2.6
+/// and the crate's limits): at most 24 coefficients, precision 1..=15 (written as precision-1 in
+/// 4 bits, 0b1111 is invalid), non-negative 5-bit shift, every coefficient fits the precision.
+fn spec_qp_wf(qp: &QuantizedParameters) -> bool {
+    if qp.order > 24 || qp.precision < 1 || qp.precision > 15 || qp.shift < 0 || qp.shift > 15 {
+        return false;
+    }
+    let mut j = 0;
+    while j < qp.order {
+        if !spec_fits(qp.coefs[j] as i64, qp.precision) {
+            return false;
+        }
+        j += 1;
+    }
+    true
+}
+
+fn spec_samples_fit(x: &[i32], bps: usize) -> bool {
+    let mut i = 0;
+    while i < x.len() {
+        if !spec_fits(x[i] as i64, bps) {
+            return false;
+        }
+        i += 1;
+    }
+    true
+}
+
+/// SUBFRAME_FIXED (section 9.2.5): order <= 4 (structural), valid width, warm-up samples fit,
+/// and the residual codes exactly block - order samples.  Some(size in bits) / None.
+fn spec_fixed_bits(c: &FixedLpc) -> Option<u64> {
+    let bps = c.bits_per_sample as usize;
+    if !spec_bps(bps) || !spec_samples_fit(&c.warm_up, bps) {
+        return None;
+    }
+    if c.residual.warmup_length != c.warm_up.len() {
+        return None;
+    }
+    match spec_residual_bits(&c.residual) {
+        Some(b) => Some(8 + (bps * c.warm_up.len()) as u64 + b),
+        None => None,
+    }
+}
+
+/// SUBFRAME_LPC (section 9.2.6): 1 <= order == number of warm-up samples == warm-up length of
+/// the residual, parameters well-formed, valid width, samples fit.  Some(size in bits) / None.
+fn spec_lpc_bits(c: &Lpc) -> Option<u64> {
+    let bps = c.bits_per_sample as usize;
+    let order = c.parameters.order;
+    if !spec_qp_wf(&c.parameters) || order < 1 || c.warm_up.len() != order {
+        return None;
+    }
+    if !spec_bps(bps) || !spec_samples_fit(&c.warm_up, bps) {
+        return None;
+    }
+    if c.residual.warmup_length != order {
+        return None;
+    }
+    match spec_residual_bits(&c.residual) {
+        Some(b) => Some(8 + (bps * order) as u64 + 4 + 5 + (c.parameters.precision * order) as u64 + b),
+        None => None,
+    }
 }
 
 // ================================================================================================
@@ -184,7 +293,8 @@ fn spec_residual_wellformed(res: &Residual) -> u64 {
 // ================================================================================================
 
 /// One call of `Residual::new` with a concrete shape and symbolic contents.  The call must return;
-/// `Ok` must report the arguments unchanged (no `as u8` re-interpretation of the order).
+/// `Ok` must report the arguments unchanged (no `as u8` re-interpretation of the order) and the
+/// lengths must have been consistent.
 fn residual_new_total<const NP: usize, const NQ: usize, const NR: usize>(
     order: usize,
     bs: usize,
@@ -252,18 +362,14 @@ fn c18_residual_new_total_partitions() {
     kani::cover!(ok);
 }
 
-/// `Residual::verify()` is the gate for values that did not come through `new` (crate-private
-/// `from_parts`, serde `Deserialize` of arbitrary field values).  On a concrete shape with
-/// ARBITRARY contents and cached sums it returns, and `Ok` implies the residual is well-formed
-/// per the RFC (`spec_residual_wellformed`), i.e. the pre-condition under which
-/// bitrepr::verif_sub proves the writer, and `count_bits()` does not panic and equals the
-/// independently computed size.
-fn residual_verify_gate<const NP: usize, const NQ: usize, const NR: usize>(
+/// A `Residual` of a concrete shape with arbitrary contents and cached sums (what serde
+/// `Deserialize` or the crate-private `from_parts` can produce).
+fn any_residual_literal<const NP: usize, const NQ: usize, const NR: usize>(
     order: u8,
     bs: usize,
     w: usize,
-) -> bool {
-    let res = Residual {
+) -> Residual {
+    Residual {
         partition_order: order,
         block_size: bs,
         warmup_length: w,
@@ -272,10 +378,24 @@ fn residual_verify_gate<const NP: usize, const NQ: usize, const NR: usize>(
         remainders: Vec::from(kani::any::<[u32; NR]>()),
         sum_quotients: kani::any(),
         sum_rice_params: kani::any(),
-    };
+    }
+}
+
+/// `Residual::verify()` is the gate for values that did not come through `new`.  On a concrete
+/// shape with ARBITRARY contents it returns, Ok <==> the residual is well-formed
+/// (`spec_residual_bits`), and then `count_bits()` does not panic and is the independently
+/// computed size.  (Well-formed ==> `write` delivers that many bits in the RFC layout:
+/// c18_residual_new_ok_* here and bitrepr::verif_sub.)
+fn residual_verify_gate<const NP: usize, const NQ: usize, const NR: usize>(
+    order: u8,
+    bs: usize,
+    w: usize,
+) -> bool {
+    let res = any_residual_literal::<NP, NQ, NR>(order, bs, w);
     let ok = res.verify().is_ok();
-    if ok {
-        let bits = spec_residual_wellformed(&res);
+    let wf = spec_residual_bits(&res);
+    assert!(ok == wf.is_some());
+    if let Some(bits) = wf {
         assert!(res.count_bits() as u64 == bits);
     }
     ok
@@ -298,7 +418,7 @@ fn c18_residual_verify_gate_lengths() {
     residual_verify_gate::<0, 2, 2>(0, 2, 0);
 }
 
-//@ unit props=C18 tier=quick kind=bounded timeout=600 funcs="Residual::verify; Residual::count_bits" bound="shapes: partition order 20 / 64 / 255, warm-up above the block size / usize::MAX, empty block, partition length 0, uneven partitions, warm-up beyond the first partition; contents and cached sums symbolic"
+//@ unit props=C18 tier=quick kind=bounded timeout=600 funcs="Residual::verify; Residual::count_bits" bound="shapes: partition order 20 / 64 / 255, warm-up above the block size / usize::MAX, empty block; contents and cached sums symbolic"
 #[kani::proof]
 #[kani::unwind(8)]
 #[kani::stub(std::fmt::format, stub_format)]
@@ -308,10 +428,19 @@ fn c18_residual_verify_gate_scalars() {
     residual_verify_gate::<1, 2, 2>(255, 2, 0);
     residual_verify_gate::<1, 2, 2>(0, 2, 3);
     residual_verify_gate::<1, 2, 2>(0, 2, usize::MAX);
-    residual_verify_gate::<1, 0, 0>(0, 0, 0);
+    let ok = residual_verify_gate::<1, 0, 0>(0, 0, 0);
+    kani::cover!(ok);
+}
+
+//@ unit props=C18 tier=quick kind=bounded timeout=600 funcs="Residual::verify; Residual::count_bits" bound="shapes: partition length 0, uneven partitions, warm-up beyond the first partition, order 1 with block 4 and warm-up 2; contents and cached sums symbolic"
+#[kani::proof]
+#[kani::unwind(8)]
+#[kani::stub(std::fmt::format, stub_format)]
+fn c18_residual_verify_gate_partitions() {
     residual_verify_gate::<4, 2, 2>(2, 2, 0);
     residual_verify_gate::<2, 3, 3>(1, 3, 0);
     residual_verify_gate::<2, 2, 2>(1, 2, 2);
+    residual_verify_gate::<2, 4, 4>(1, 4, 3);
     let ok = residual_verify_gate::<2, 4, 4>(1, 4, 2);
     kani::cover!(ok);
 }
@@ -359,11 +488,11 @@ fn residual_rebuilt(
     }
 }
 
-/// `Residual::new(..) == Ok(c)`  ==>  `c.verify()` is Ok, `c` is well-formed, and it serialises
-/// without panicking to exactly `count_bits()` bits (== the independently computed size) with the
-/// partition order and the first parameter at their RFC positions.  Quotients are bounded by 70
-/// only here (the zero run is `BitSink::write_zeros`, proved for every length in bitsink::verif);
-/// parameters and remainders range over their full types.
+/// END-TO-END: `Residual::new(..) == Ok(c)`  ==>  `c` holds the arguments, is well-formed,
+/// verifies, and serialises without panicking to exactly `count_bits()` bits (== the
+/// independently computed size) with the partition order and the first parameter at their RFC
+/// positions.  Quotients are bounded by 70 only here (the zero run is `BitSink::write_zeros`,
+/// proved for every length in bitsink::verif); parameters and remainders range over their types.
 fn residual_new_ok_serialises<const NP: usize, const N: usize>(order: usize, w: usize) -> bool {
     let p: [u8; NP] = kani::any();
     let q: [u32; N] = kani::any();
@@ -376,12 +505,14 @@ fn residual_new_ok_serialises<const NP: usize, const N: usize>(order: usize, w: 
     match Residual::new(order, N, w, &p, &q, &r) {
         Ok(c) => {
             let c = residual_rebuilt(c, order, N, w, &p, &q, &r);
-            let bits = spec_residual_wellformed(&c);
+            let wf = spec_residual_bits(&c);
+            assert!(wf.is_some());
             let s = serialises(&c);
-            assert!(s.id.len as u64 == bits);
+            assert!(Some(s.id.len as u64) == wf);
             assert!(field(&s, 0, 6) == order as u64);
             assert!(field(&s, 6, 4) == p[0] as u64);
             assert!(c.rice_parameter(0) == p[0] as usize);
+            assert!(c.verify().is_ok());
             true
         }
         Err(_) => false,
@@ -404,10 +535,10 @@ macro_rules! residual_new_ok_harness {
     };
 }
 
-//@ unit name=c18_residual_new_ok_o0_n2_w0 props=C18 tier=quick kind=bounded timeout=600 funcs="Residual::new; Residual::write; Residual::count_bits" stubs="find_max -> scalar maximum (c18_find_max_contract); wrapping_sum -> scalar wrapping sum (c18_wrapping_sum_contract)" bound="partition order 0, block 2, warm-up 0; quotients <= 70, parameters and remainders symbolic"
-//@ unit name=c18_residual_new_ok_o0_n3_w2 props=C18 tier=quick kind=bounded timeout=600 funcs="Residual::new; Residual::write; Residual::count_bits" stubs="find_max -> scalar maximum (c18_find_max_contract); wrapping_sum -> scalar wrapping sum (c18_wrapping_sum_contract)" bound="partition order 0, block 3, warm-up 2; quotients <= 70, parameters and remainders symbolic"
-//@ unit name=c18_residual_new_ok_o1_n4_w1 props=C18 tier=quick kind=bounded timeout=600 funcs="Residual::new; Residual::write; Residual::count_bits" stubs="find_max -> scalar maximum (c18_find_max_contract); wrapping_sum -> scalar wrapping sum (c18_wrapping_sum_contract)" bound="partition order 1, block 4, warm-up 1; quotients <= 70, parameters and remainders symbolic"
-//@ unit name=c18_residual_new_ok_o1_n4_w3 props=C18 tier=quick kind=bounded timeout=600 funcs="Residual::new; Residual::write; Residual::count_bits" stubs="find_max -> scalar maximum (c18_find_max_contract); wrapping_sum -> scalar wrapping sum (c18_wrapping_sum_contract)" bound="partition order 1, block 4, warm-up 3 (reaches into the second partition: must be rejected or serialisable); quotients <= 70, parameters and remainders symbolic"
+//@ unit name=c18_residual_new_ok_o0_n2_w0 props=C18 tier=quick kind=bounded timeout=600 funcs="Residual::new; Residual::verify; Residual::write; Residual::count_bits" stubs="find_max -> scalar maximum (c18_find_max_contract); wrapping_sum -> scalar wrapping sum (c18_wrapping_sum_contract)" bound="partition order 0, block 2, warm-up 0; quotients <= 70, parameters and remainders symbolic"
+//@ unit name=c18_residual_new_ok_o0_n3_w2 props=C18 tier=quick kind=bounded timeout=600 funcs="Residual::new; Residual::verify; Residual::write; Residual::count_bits" stubs="find_max -> scalar maximum (c18_find_max_contract); wrapping_sum -> scalar wrapping sum (c18_wrapping_sum_contract)" bound="partition order 0, block 3, warm-up 2; quotients <= 70, parameters and remainders symbolic"
+//@ unit name=c18_residual_new_ok_o1_n4_w1 props=C18 tier=quick kind=bounded timeout=600 funcs="Residual::new; Residual::verify; Residual::write; Residual::count_bits" stubs="find_max -> scalar maximum (c18_find_max_contract); wrapping_sum -> scalar wrapping sum (c18_wrapping_sum_contract)" bound="partition order 1, block 4, warm-up 1; quotients <= 70, parameters and remainders symbolic"
+//@ unit name=c18_residual_new_ok_o1_n4_w3 props=C18 tier=quick kind=bounded timeout=600 funcs="Residual::new; Residual::verify; Residual::write; Residual::count_bits" stubs="find_max -> scalar maximum (c18_find_max_contract); wrapping_sum -> scalar wrapping sum (c18_wrapping_sum_contract)" bound="partition order 1, block 4, warm-up 3 (reaches into the second partition: must be rejected or serialisable); quotients <= 70, parameters and remainders symbolic"
 residual_new_ok_harness!(c18_residual_new_ok_o0_n2_w0, 1, 2, 0, 0, true);
 residual_new_ok_harness!(c18_residual_new_ok_o0_n3_w2, 1, 3, 0, 2, true);
 residual_new_ok_harness!(c18_residual_new_ok_o1_n4_w1, 2, 4, 1, 1, true);
@@ -417,23 +548,8 @@ residual_new_ok_harness!(c18_residual_new_ok_o1_n4_w3, 2, 4, 1, 3, false);
 // QuantizedParameters
 // ================================================================================================
 
-/// What the LPC sub-frame header can carry (RFC 9639 section 9.2.6, and the crate's documented
-/// limits): order <= 24 coefficients, precision 1..=15 (written as precision-1 in 4 bits, 0b1111
-/// is invalid), non-negative 5-bit shift, every coefficient fits the precision.
-fn spec_qp_wellformed(qp: &QuantizedParameters) {
-    assert!(qp.order <= 24);
-    assert!(1 <= qp.precision && qp.precision <= 15);
-    assert!(0 <= qp.shift && qp.shift <= 15);
-    let mut j = 0;
-    while j < qp.order {
-        assert!(spec_fits(qp.coefs[j] as i64, qp.precision));
-        j += 1;
-    }
-}
-
-/// Field-wise identical copy with the (asserted equal) concrete order, see
-/// `residual_with_concrete_shape`.
-fn qp_with_concrete_order(qp: QuantizedParameters, order: usize) -> QuantizedParameters {
+/// Field-wise identical copy with the (asserted equal) concrete order, see `residual_rebuilt`.
+fn qp_rebuilt(qp: QuantizedParameters, order: usize) -> QuantizedParameters {
     assert!(qp.order == order);
     QuantizedParameters {
         coefs: qp.coefs,
@@ -444,8 +560,8 @@ fn qp_with_concrete_order(qp: QuantizedParameters, order: usize) -> QuantizedPar
 }
 
 /// One call of `QuantizedParameters::new` with a concrete (number of coefficients, order) and
-/// symbolic coefficients / shift / precision: returns; Ok ==> verifies, is well-formed, and
-/// reports the arguments.
+/// symbolic coefficients / shift / precision: returns; Ok ==> the lengths were consistent, the
+/// value reports the arguments, is well-formed and verifies.
 fn qp_new<const NC: usize>(order: usize) -> bool {
     let coefs: [i16; NC] = kani::any();
     let shift: i8 = kani::any();
@@ -454,9 +570,9 @@ fn qp_new<const NC: usize>(order: usize) -> bool {
         Ok(qp) => {
             assert!(order == NC);
             assert!(qp.order() == order && qp.shift() == shift && qp.precision() == precision);
-            let qp = qp_with_concrete_order(qp, NC);
+            let qp = qp_rebuilt(qp, NC);
+            assert!(spec_qp_wf(&qp));
             assert!(qp.verify().is_ok());
-            spec_qp_wellformed(&qp);
             let mut j = 0;
             while j < NC {
                 assert!(qp.coefficient(j) == Some(coefs[j]));
@@ -486,19 +602,25 @@ fn c18_qp_new_small() {
     qp_new::<1>(usize::MAX);
 }
 
-//@ unit props=C18 tier=quick kind=bounded timeout=600 funcs="QuantizedParameters::new; QuantizedParameters::from_parts; QuantizedParameters::verify" bound="(#coefficients, order) in {(24,24),(25,25),(33,33)}; coefficients, shift and precision symbolic"
+//@ unit props=C18 tier=quick kind=bounded timeout=600 funcs="QuantizedParameters::new; QuantizedParameters::from_parts; QuantizedParameters::verify" bound="(#coefficients, order) in {(25,25),(33,33)}: above the maximum order / above the 32 lanes; coefficients, shift and precision symbolic"
 #[kani::proof]
 #[kani::unwind(36)]
 #[kani::stub(std::fmt::format, stub_format)]
-fn c18_qp_new_large() {
-    let ok = qp_new::<24>(24);
-    kani::cover!(ok);
+fn c18_qp_new_too_large() {
     qp_new::<25>(25);
     qp_new::<33>(33);
 }
 
-/// `QuantizedParameters::verify()` on arbitrary field values (serde / `from_parts`): returns, and
-/// Ok ==> well-formed.
+//@ unit props=C18 tier=thorough kind=bounded timeout=1800 funcs="QuantizedParameters::new; QuantizedParameters::from_parts; QuantizedParameters::verify" bound="24 coefficients, order 24 (the maximum); coefficients, shift and precision symbolic"
+#[kani::proof]
+#[kani::unwind(27)]
+#[kani::stub(std::fmt::format, stub_format)]
+fn c18_qp_new_max_order() {
+    let ok = qp_new::<24>(24);
+    kani::cover!(ok);
+}
+
+/// `QuantizedParameters::verify()` on arbitrary field values: returns, and Ok <==> well-formed.
 fn qp_verify_gate(order: usize) -> bool {
     let qp = QuantizedParameters {
         coefs: simd::i16x32::from_array(kani::any()),
@@ -507,22 +629,19 @@ fn qp_verify_gate(order: usize) -> bool {
         precision: kani::any(),
     };
     let ok = qp.verify().is_ok();
-    if ok {
-        spec_qp_wellformed(&qp);
-    }
+    assert!(ok == spec_qp_wf(&qp));
     ok
 }
 
-//@ unit props=C18 tier=quick kind=bounded timeout=600 funcs="QuantizedParameters::verify" bound="order in {0,1,2,24,25,32,33,usize::MAX}; all 32 lanes, shift and precision symbolic"
+//@ unit props=C18 tier=quick kind=bounded timeout=600 funcs="QuantizedParameters::verify" bound="order in {0,1,2,25,32,33,usize::MAX}; all 32 lanes, shift and precision symbolic"
 #[kani::proof]
-#[kani::unwind(36)]
+#[kani::unwind(8)]
 #[kani::stub(std::fmt::format, stub_format)]
-fn c18_qp_verify_gate() {
+fn c18_qp_verify_gate_small() {
     qp_verify_gate(0);
     let ok = qp_verify_gate(1);
     kani::cover!(ok);
-    qp_verify_gate(2);
-    let ok = qp_verify_gate(24);
+    let ok = qp_verify_gate(2);
     kani::cover!(ok);
     qp_verify_gate(25);
     qp_verify_gate(32);
@@ -530,15 +649,18 @@ fn c18_qp_verify_gate() {
     qp_verify_gate(usize::MAX);
 }
 
+//@ unit props=C18 tier=quick kind=bounded timeout=600 funcs="QuantizedParameters::verify" bound="order 24 (the maximum); all 32 lanes, shift and precision symbolic"
+#[kani::proof]
+#[kani::unwind(27)]
+#[kani::stub(std::fmt::format, stub_format)]
+fn c18_qp_verify_gate_max_order() {
+    let ok = qp_verify_gate(24);
+    kani::cover!(ok);
+}
+
 // ================================================================================================
 // Constant / Verbatim
 // ================================================================================================
-
-/// The sample widths a FLAC sub-frame can have in this crate: 8..=24 in steps of 4, plus one for
-/// a side channel.
-fn spec_bps(bps: usize) -> bool {
-    8 <= bps && bps <= 25 && (bps % 4 == 0 || bps % 4 == 1)
-}
 
 /// `Constant::new` over the full domain of all three arguments (loop-free: complete).
 /// Ok <=> block size <= 32767, valid width, offset fits the width; Ok ==> verifies and
@@ -570,7 +692,7 @@ fn c18_constant_new() {
     kani::cover!(bps == 300);
 }
 
-/// `Constant::verify()` on arbitrary fields: returns; Ok ==> serialisable.
+/// `Constant::verify()` on arbitrary fields: returns; Ok <==> well-formed; then serialisable.
 //@ unit props=C18 tier=quick kind=complete timeout=600 funcs="Constant::verify; Constant::write; Constant::count_bits"
 #[kani::proof]
 #[kani::unwind(8)]
@@ -581,10 +703,11 @@ fn c18_constant_verify_gate() {
         dc_offset: kani::any(),
         bits_per_sample: kani::any(),
     };
+    let bps = c.bits_per_sample as usize;
+    let wf = c.block_size <= 32767 && spec_bps(bps) && spec_fits(c.dc_offset as i64, if spec_bps(bps) { bps } else { 8 });
     let ok = c.verify().is_ok();
+    assert!(ok == wf);
     if ok {
-        assert!(c.block_size <= 32767 && spec_bps(c.bits_per_sample as usize));
-        assert!(spec_fits(c.dc_offset as i64, c.bits_per_sample as usize));
         serialises(&c);
     }
     kani::cover!(ok);
@@ -594,12 +717,7 @@ fn c18_constant_verify_gate() {
 fn verbatim_new<const N: usize>() {
     let x: [i32; N] = kani::any();
     let bps: usize = kani::any();
-    let mut fits = spec_bps(bps);
-    let mut i = 0;
-    while i < N {
-        fits = fits && spec_fits(x[i] as i64, if spec_bps(bps) { bps } else { 8 });
-        i += 1;
-    }
+    let fits = spec_bps(bps) && spec_samples_fit(&x, if spec_bps(bps) { bps } else { 8 });
     match Verbatim::new(&x, bps) {
         Ok(c) => {
             assert!(fits);
@@ -621,184 +739,284 @@ fn verbatim_new<const N: usize>() {
 
 /// `Verbatim::new`: Ok <=> valid width and every sample fits; Ok ==> verifies and serialises to
 /// 8 + n * bps bits (header byte 0x02, first sample at its position).
-//@ unit props=C18 tier=quick kind=bounded timeout=600 funcs="Verbatim::new; Verbatim::verify; Verbatim::write; Verbatim::count_bits" bound="0 and 2 samples; every sample value and every usize width" note="the upper length limit (32767 samples) is out of reach for a symbolic unit; see report: Verbatim::new(&[0; 40000], 16) is Ok but verify() is Err on the unchanged tree"
+//@ unit props=C18 tier=quick kind=bounded timeout=600 funcs="Verbatim::new; Verbatim::verify; Verbatim::write; Verbatim::count_bits" bound="2 samples; every sample value and every usize width" note="the upper length limit (32767 samples) is out of reach for a symbolic unit; Verbatim::new(&[0; 40000], 16) is Ok but verify() is Err on the unchanged tree (native probe)"
 #[kani::proof]
 #[kani::unwind(8)]
 #[kani::stub(std::fmt::format, stub_format)]
-fn c18_verbatim_new() {
-    verbatim_new::<0>();
+fn c18_verbatim_new_n2() {
     verbatim_new::<2>();
+}
+
+//@ unit props=C18 tier=quick kind=bounded timeout=600 funcs="Verbatim::new; Verbatim::verify; Verbatim::write; Verbatim::count_bits" bound="no sample; every usize width"
+#[kani::proof]
+#[kani::unwind(8)]
+#[kani::stub(std::fmt::format, stub_format)]
+fn c18_verbatim_new_n0() {
+    verbatim_new::<0>();
 }
 
 // ================================================================================================
 // FixedLpc / Lpc
 // ================================================================================================
 
-/// A residual as a user of the public API can obtain it: an `Ok` result of `Residual::new`, with
-/// partition order 0, block size 3, the given warm-up length and symbolic contents.
-fn any_public_residual(w: usize) -> Option<(Residual, [u8; 1], [u32; 2], [u32; 2])> {
-    let p: [u8; 1] = kani::any();
-    let q: [u32; 2] = kani::any();
-    let r: [u32; 2] = kani::any();
-    match Residual::new(0, 2, w, &p, &q, &r) {
-        Ok(c) => Some((residual_rebuilt(c, 0, 2, w, &p, &q, &r), p, q, r)),
-        Err(_) => None,
+/// Component-typed ARGUMENTS of `FixedLpc::new` / `Lpc::new` in the c18_*_new units: a residual
+/// (partition order 0, block 2, given warm-up length) and parameters (given order) with arbitrary
+/// contents.  A user of the public API can only hold values on which `verify()` is Ok
+/// (`X::new` is `from_parts` + `verify()`); the units do not even need that assumption: the facts
+/// they prove about an `Ok` result hold for every argument value.
+fn any_residual_arg(w: usize) -> Residual {
+    any_residual_literal::<1, 2, 2>(0, 2, w)
+}
+
+fn any_qp_arg(order: usize) -> QuantizedParameters {
+    QuantizedParameters {
+        coefs: simd::i16x32::from_array(kani::any()),
+        order,
+        shift: kani::any(),
+        precision: kani::any(),
     }
 }
 
-/// Copy of a heapless vector with a concrete length (contents asserted equal).
-fn heapless_rebuilt<const NW: usize, const CAP: usize>(
-    v: &heapless::Vec<i32, CAP>,
-    warm: &[i32; NW],
-) -> heapless::Vec<i32, CAP> {
-    assert!(v.len() == NW);
+fn any_heapless<const NW: usize, const CAP: usize>() -> heapless::Vec<i32, CAP> {
+    let warm: [i32; NW] = kani::any();
     let mut out = heapless::Vec::<i32, CAP>::new();
     let mut i = 0;
     while i < NW {
-        assert!(v[i] == warm[i]);
         out.push(warm[i]).unwrap();
         i += 1;
     }
     out
 }
 
-/// `FixedLpc::new` with NW warm-up samples (symbolic), a public residual of block 3 whose own
-/// warm-up length is `rw`, and a symbolic width: returns; Ok ==> verifies, the residual codes
-/// exactly block - order samples (else a decoder misreads the sub-frame), order <= 4, and it
-/// serialises to count_bits() bits with the RFC header byte.
+/// `FixedLpc::new` with NW warm-up samples (symbolic), a residual of block 2 whose own warm-up
+/// length is `rw`, and a symbolic width: returns; Ok ==> order <= 4, valid width, the samples fit
+/// and are stored, the residual is the argument and codes exactly block - order samples (else a
+/// decoder misreads the sub-frame).  For a public (verifying, hence well-formed:
+/// c18_residual_verify_gate_*) residual these facts are `spec_fixed_bits(c).is_some()`.
 fn fixed_lpc_new<const NW: usize>(rw: usize) -> bool {
     let warm: [i32; NW] = kani::any();
     let bps: usize = kani::any();
-    let Some((res, rp, rq, rr)) = any_public_residual(rw) else {
-        return false;
-    };
+    let res = any_residual_arg(rw);
+    let q0 = res.quotients[0];
     match FixedLpc::new(&warm, res, bps) {
         Ok(c) => {
             assert!(NW <= 4 && c.order() == NW && spec_bps(bps) && c.bits_per_sample() == bps);
-            assert!(c.residual().warmup_length() == NW);
+            assert!(c.residual().warmup_length() == NW && rw == NW);
+            assert!(c.residual().block_size() == 2 && c.residual().partition_order() == 0);
+            assert!(c.residual().quotients()[0] == q0);
             let mut i = 0;
             while i < NW {
                 assert!(spec_fits(warm[i] as i64, bps) && c.warm_up()[i] == warm[i]);
                 i += 1;
             }
-            let c = FixedLpc {
-                warm_up: heapless_rebuilt(&c.warm_up, &warm),
-                residual: residual_rebuilt(c.residual, 0, 2, rw, &rp, &rq, &rr),
-                bits_per_sample: c.bits_per_sample,
-            };
-            assert!(c.verify().is_ok());
-            serialises_len(&c);
             true
         }
         Err(_) => false,
     }
 }
 
-macro_rules! fixed_lpc_harness {
-    ($name:ident, $nw:expr, $rw:expr, $reachable:expr) => {
-        #[kani::proof]
-        #[kani::unwind(8)]
-        #[kani::stub(std::fmt::format, stub_format)]
-        #[kani::stub(find_max, contract_find_max)]
-        #[kani::stub(wrapping_sum, contract_wrapping_sum)]
-        fn $name() {
-            let ok = fixed_lpc_new::<$nw>($rw);
-            if $reachable {
-                kani::cover!(ok);
-            }
-        }
-    };
+//@ unit props=C18 tier=quick kind=bounded timeout=600 funcs="FixedLpc::new; FixedLpc::from_parts" bound="(#warm-up samples, residual warm-up) in {(0,0),(1,1),(2,2)}, residual of block 2; samples, width (every usize), residual contents symbolic"
+#[kani::proof]
+#[kani::unwind(8)]
+#[kani::stub(std::fmt::format, stub_format)]
+#[kani::stub(VerifyError::within, stub_within)]
+fn c18_fixed_lpc_new_consistent() {
+    let ok = fixed_lpc_new::<0>(0);
+    kani::cover!(ok);
+    let ok = fixed_lpc_new::<1>(1);
+    kani::cover!(ok);
+    let ok = fixed_lpc_new::<2>(2);
+    kani::cover!(ok);
 }
 
-//@ unit name=c18_fixed_lpc_new_w0 props=C18 tier=quick kind=bounded timeout=600 funcs="FixedLpc::new; FixedLpc::verify; FixedLpc::write; FixedLpc::count_bits" stubs="find_max -> scalar maximum (c18_find_max_contract); wrapping_sum -> scalar wrapping sum (c18_wrapping_sum_contract)" bound="order 0, residual of block 3 / warm-up 0; warm-up values, width, residual contents symbolic"
-//@ unit name=c18_fixed_lpc_new_w2 props=C18 tier=quick kind=bounded timeout=600 funcs="FixedLpc::new; FixedLpc::verify; FixedLpc::write; FixedLpc::count_bits" stubs="find_max -> scalar maximum (c18_find_max_contract); wrapping_sum -> scalar wrapping sum (c18_wrapping_sum_contract)" bound="order 2, residual of block 3 / warm-up 2; warm-up values, width, residual contents symbolic"
-//@ unit name=c18_fixed_lpc_new_w1_mismatch props=C18 tier=quick kind=bounded timeout=600 funcs="FixedLpc::new; FixedLpc::verify; FixedLpc::write; FixedLpc::count_bits" stubs="find_max -> scalar maximum (c18_find_max_contract); wrapping_sum -> scalar wrapping sum (c18_wrapping_sum_contract)" bound="1 warm-up sample but a residual with warm-up length 0 (inconsistent); all values symbolic"
-//@ unit name=c18_fixed_lpc_new_w5 props=C18 tier=quick kind=bounded timeout=600 funcs="FixedLpc::new" stubs="find_max -> scalar maximum (c18_find_max_contract); wrapping_sum -> scalar wrapping sum (c18_wrapping_sum_contract)" bound="5 warm-up samples (above the maximum fixed order), residual of block 3 / warm-up 3; all values symbolic"
-fixed_lpc_harness!(c18_fixed_lpc_new_w0, 0, 0, true);
-fixed_lpc_harness!(c18_fixed_lpc_new_w2, 2, 2, true);
-fixed_lpc_harness!(c18_fixed_lpc_new_w1_mismatch, 1, 0, false);
-fixed_lpc_harness!(c18_fixed_lpc_new_w5, 5, 3, false);
+//@ unit props=C18 tier=quick kind=bounded timeout=600 funcs="FixedLpc::new; FixedLpc::from_parts" bound="(#warm-up samples, residual warm-up) in {(1,0),(2,1),(0,1),(5,2)}: order and residual disagree, order above 4; all values symbolic"
+#[kani::proof]
+#[kani::unwind(8)]
+#[kani::stub(std::fmt::format, stub_format)]
+#[kani::stub(VerifyError::within, stub_within)]
+fn c18_fixed_lpc_new_inconsistent() {
+    fixed_lpc_new::<1>(0);
+    fixed_lpc_new::<2>(1);
+    fixed_lpc_new::<0>(1);
+    fixed_lpc_new::<5>(2);
+}
 
-/// `Lpc::new` with NW warm-up samples, public parameters of order NC (an `Ok` result of
-/// `QuantizedParameters::new`), a public residual of block 3 / warm-up `rw`, symbolic width:
-/// returns; Ok ==> verifies, 1 <= order == NW == residual warm-up, parameters well-formed, and
-/// none of the writer's assertions (`precision < 16`, `shift >= 0`, `order - 1`, coefficient
-/// range) fires: it serialises to count_bits() bits with the RFC header byte.
+/// `FixedLpc::verify()` on arbitrary field values of a concrete shape: returns; Ok <==>
+/// well-formed (`spec_fixed_bits`); well-formed ==> serialises without panicking to
+/// `count_bits()` bits == the independent size, header byte 0b0001_ooo0 (quotients <= 70 for the
+/// serialisation part only).
+fn fixed_lpc_verify_gate<const NW: usize>(rw: usize) -> bool {
+    let c = FixedLpc {
+        warm_up: any_heapless::<NW, 4>(),
+        residual: any_residual_literal::<1, 2, 2>(0, 2, rw),
+        bits_per_sample: kani::any(),
+    };
+    let ok = c.verify().is_ok();
+    let wf = spec_fixed_bits(&c);
+    assert!(ok == wf.is_some());
+    if wf.is_some() && c.residual.quotients[0] <= 70 && c.residual.quotients[1] <= 70 {
+        let s = serialises(&c);
+        assert!(Some(s.id.len as u64) == wf);
+        assert!(field(&s, 0, 8) == (0x10 | (NW << 1)) as u64);
+    }
+    ok
+}
+
+//@ unit props=C18 tier=quick kind=bounded timeout=600 funcs="FixedLpc::verify; FixedLpc::write; FixedLpc::count_bits; Residual::verify; Residual::write" bound="(#warm-up samples, residual warm-up) in {(1,1),(0,0)}, residual of block 2; every field value symbolic"
+#[kani::proof]
+#[kani::unwind(8)]
+#[kani::stub(std::fmt::format, stub_format)]
+#[kani::stub(VerifyError::within, stub_within)]
+fn c18_fixed_lpc_verify_gate_consistent() {
+    let ok = fixed_lpc_verify_gate::<1>(1);
+    kani::cover!(ok);
+    let ok = fixed_lpc_verify_gate::<0>(0);
+    kani::cover!(ok);
+}
+
+//@ unit props=C18 tier=quick kind=bounded timeout=600 funcs="FixedLpc::verify; FixedLpc::write; FixedLpc::count_bits; Residual::verify; Residual::write" bound="(#warm-up samples, residual warm-up) in {(2,2),(1,0),(2,1)}, residual of block 2; every field value symbolic"
+#[kani::proof]
+#[kani::unwind(8)]
+#[kani::stub(std::fmt::format, stub_format)]
+#[kani::stub(VerifyError::within, stub_within)]
+fn c18_fixed_lpc_verify_gate_inconsistent() {
+    let ok = fixed_lpc_verify_gate::<2>(2);
+    kani::cover!(ok);
+    fixed_lpc_verify_gate::<1>(0);
+    fixed_lpc_verify_gate::<2>(1);
+}
+
+/// `Lpc::new` with NW warm-up samples, parameters of order NC, a residual of block 2 / warm-up
+/// `rw`, symbolic width: returns; Ok ==> 1 <= order == NW == residual warm-up, valid width,
+/// samples fit and are stored, parameters and residual are the arguments.  For public (verifying,
+/// hence well-formed: c18_qp_verify_gate_*, c18_residual_verify_gate_*) arguments these facts are
+/// `spec_lpc_bits(c).is_some()`.
 fn lpc_new<const NW: usize, const NC: usize>(rw: usize) -> bool {
     let warm: [i32; NW] = kani::any();
     let bps: usize = kani::any();
-    let coefs: [i16; NC] = kani::any();
-    let Ok(qp) = QuantizedParameters::new(&coefs, NC, kani::any(), kani::any()) else {
-        return false;
-    };
-    let qp = qp_with_concrete_order(qp, NC);
-    let Some((res, rp, rq, rr)) = any_public_residual(rw) else {
-        return false;
-    };
+    let qp = any_qp_arg(NC);
+    let (shift, precision, c0) = (qp.shift, qp.precision, qp.coefs[0]);
+    let res = any_residual_arg(rw);
+    let q0 = res.quotients[0];
     match Lpc::new(&warm, qp, res, bps) {
         Ok(c) => {
             assert!(1 <= NC && NC == NW && c.order() == NC);
             assert!(spec_bps(bps) && c.bits_per_sample() == bps);
-            assert!(c.residual().warmup_length() == NC);
+            assert!(c.residual().warmup_length() == NC && rw == NC);
+            assert!(c.residual().block_size() == 2 && c.residual().partition_order() == 0);
+            assert!(c.parameters().shift() == shift && c.parameters().precision() == precision);
+            assert!(c.parameters().coefficient(0) == Some(c0));
+            assert!(c.residual().quotients()[0] == q0);
             let mut i = 0;
             while i < NW {
                 assert!(spec_fits(warm[i] as i64, bps) && c.warm_up()[i] == warm[i]);
                 i += 1;
             }
-            let c = Lpc {
-                parameters: qp_with_concrete_order(c.parameters, NC),
-                warm_up: heapless_rebuilt(&c.warm_up, &warm),
-                residual: residual_rebuilt(c.residual, 0, 2, rw, &rp, &rq, &rr),
-                bits_per_sample: c.bits_per_sample,
-            };
-            assert!(c.verify().is_ok());
-            spec_qp_wellformed(c.parameters());
-            serialises_len(&c);
             true
         }
         Err(_) => false,
     }
 }
 
-macro_rules! lpc_harness {
-    ($name:ident, $nw:expr, $nc:expr, $rw:expr, $unwind:expr, $reachable:expr) => {
+macro_rules! lpc_new_harness {
+    ($name:ident, $unwind:expr, $reachable:expr, $(($nw:expr, $nc:expr, $rw:expr)),+) => {
         #[kani::proof]
         #[kani::unwind($unwind)]
         #[kani::stub(std::fmt::format, stub_format)]
-        #[kani::stub(find_max, contract_find_max)]
-        #[kani::stub(wrapping_sum, contract_wrapping_sum)]
+        #[kani::stub(VerifyError::within, stub_within)]
         fn $name() {
-            let ok = lpc_new::<$nw, $nc>($rw);
-            if $reachable {
-                kani::cover!(ok);
-            }
+            $(
+                let ok = lpc_new::<$nw, $nc>($rw);
+                if $reachable {
+                    kani::cover!(ok);
+                }
+            )+
         }
     };
 }
 
-//@ unit name=c18_lpc_new_o1 props=C18 tier=quick kind=bounded timeout=600 funcs="Lpc::new; Lpc::from_parts; Lpc::verify; Lpc::write; Lpc::count_bits" stubs="find_max -> scalar maximum (c18_find_max_contract); wrapping_sum -> scalar wrapping sum (c18_wrapping_sum_contract)" bound="order 1, 1 warm-up sample, residual of block 3 / warm-up 1; coefficient, shift, precision, width, samples symbolic"
-//@ unit name=c18_lpc_new_o2 props=C18 tier=thorough kind=bounded timeout=900 funcs="Lpc::new; Lpc::from_parts; Lpc::verify; Lpc::write; Lpc::count_bits" stubs="find_max -> scalar maximum (c18_find_max_contract); wrapping_sum -> scalar wrapping sum (c18_wrapping_sum_contract)" bound="order 2, 2 warm-up samples, residual of block 3 / warm-up 2; all values symbolic"
-//@ unit name=c18_lpc_new_o0 props=C18 tier=quick kind=bounded timeout=600 funcs="Lpc::new; Lpc::from_parts; Lpc::verify; Lpc::write; Lpc::count_bits" stubs="find_max -> scalar maximum (c18_find_max_contract); wrapping_sum -> scalar wrapping sum (c18_wrapping_sum_contract)" bound="order 0 (no coefficient, no warm-up sample), residual of block 3 / warm-up 0; all values symbolic"
-//@ unit name=c18_lpc_new_w1_o2 props=C18 tier=quick kind=bounded timeout=600 funcs="Lpc::new; Lpc::from_parts" stubs="find_max -> scalar maximum (c18_find_max_contract); wrapping_sum -> scalar wrapping sum (c18_wrapping_sum_contract)" bound="1 warm-up sample but order 2 (lengths disagree), residual of block 3 / warm-up 1; all values symbolic"
-//@ unit name=c18_lpc_new_o1_rw0 props=C18 tier=quick kind=bounded timeout=600 funcs="Lpc::new; Lpc::verify; Lpc::write" stubs="find_max -> scalar maximum (c18_find_max_contract); wrapping_sum -> scalar wrapping sum (c18_wrapping_sum_contract)" bound="order 1, 1 warm-up sample, but a residual with warm-up length 0 (inconsistent); all values symbolic"
-//@ unit name=c18_lpc_new_w25 props=C18 tier=quick kind=bounded timeout=600 funcs="Lpc::new" stubs="find_max -> scalar maximum (c18_find_max_contract); wrapping_sum -> scalar wrapping sum (c18_wrapping_sum_contract)" bound="25 warm-up samples (above the maximum order 24), order 1; all values symbolic"
-lpc_harness!(c18_lpc_new_o1, 1, 1, 1, 8, true);
-lpc_harness!(c18_lpc_new_o2, 2, 2, 2, 8, true);
-lpc_harness!(c18_lpc_new_o0, 0, 0, 0, 8, false);
-lpc_harness!(c18_lpc_new_w1_o2, 1, 2, 1, 8, false);
-lpc_harness!(c18_lpc_new_o1_rw0, 1, 1, 0, 8, false);
-lpc_harness!(c18_lpc_new_w25, 25, 1, 1, 28, false);
+//@ unit name=c18_lpc_new_o1 props=C18 tier=quick kind=bounded timeout=600 funcs="Lpc::new; Lpc::from_parts; Lpc::verify" bound="order 1, 1 warm-up sample, residual of block 2 / warm-up 1; coefficient, shift, precision, width, samples symbolic"
+//@ unit name=c18_lpc_new_o2 props=C18 tier=quick kind=bounded timeout=600 funcs="Lpc::new; Lpc::from_parts; Lpc::verify" bound="order 2, 2 warm-up samples, residual of block 2 / warm-up 2; all values symbolic"
+//@ unit name=c18_lpc_new_o0 props=C18 tier=quick kind=bounded timeout=600 funcs="Lpc::new; Lpc::from_parts; Lpc::verify" bound="order 0 (no coefficient, no warm-up sample), residual of block 2 / warm-up 0; all values symbolic"
+//@ unit name=c18_lpc_new_lengths props=C18 tier=quick kind=bounded timeout=600 funcs="Lpc::new; Lpc::from_parts; Lpc::verify" bound="(#warm-up samples, order, residual warm-up) in {(1,2,1),(2,1,1),(0,1,0)}: warm-up length and order disagree; all values symbolic"
+//@ unit name=c18_lpc_new_o1_rw0 props=C18 tier=quick kind=bounded timeout=600 funcs="Lpc::new; Lpc::from_parts; Lpc::verify" bound="order 1, 1 warm-up sample, but a residual with warm-up length 0; all values symbolic"
+//@ unit name=c18_lpc_new_w25 props=C18 tier=quick kind=bounded timeout=600 funcs="Lpc::new" bound="25 warm-up samples (above the maximum order 24), order 1; all values symbolic"
+lpc_new_harness!(c18_lpc_new_o1, 8, true, (1, 1, 1));
+lpc_new_harness!(c18_lpc_new_o2, 8, true, (2, 2, 2));
+lpc_new_harness!(c18_lpc_new_o0, 8, false, (0, 0, 0));
+lpc_new_harness!(c18_lpc_new_lengths, 8, false, (1, 2, 1), (2, 1, 1), (0, 1, 0));
+lpc_new_harness!(c18_lpc_new_o1_rw0, 8, false, (1, 1, 0));
+lpc_new_harness!(c18_lpc_new_w25, 28, false, (25, 1, 1));
+
+/// `Lpc::verify()` on arbitrary field values of a concrete shape: returns; Ok <==> well-formed
+/// (`spec_lpc_bits`); well-formed ==> none of the writer's assertions (`precision < 16`,
+/// `shift >= 0`, `order - 1`, coefficient range, warm-up indexing) fires: it serialises to
+/// `count_bits()` bits == the independent size with the header byte 0b01oo_ooo0, precision-1 and
+/// the shift in place (quotients <= 70 for the serialisation part only).
+fn lpc_verify_gate<const NW: usize>(order: usize, rw: usize) -> bool {
+    let c = Lpc {
+        parameters: QuantizedParameters {
+            coefs: simd::i16x32::from_array(kani::any()),
+            order,
+            shift: kani::any(),
+            precision: kani::any(),
+        },
+        warm_up: any_heapless::<NW, 24>(),
+        residual: any_residual_literal::<1, 2, 2>(0, 2, rw),
+        bits_per_sample: kani::any(),
+    };
+    let ok = c.verify().is_ok();
+    let wf = spec_lpc_bits(&c);
+    assert!(ok == wf.is_some());
+    if wf.is_some() && c.residual.quotients[0] <= 70 && c.residual.quotients[1] <= 70 {
+        let s = serialises(&c);
+        assert!(Some(s.id.len as u64) == wf);
+        assert!(field(&s, 0, 8) == (0x40 | ((order - 1) << 1)) as u64);
+        if order == 1 && c.bits_per_sample == 16 {
+            assert!(field(&s, 24, 4) == (c.parameters.precision - 1) as u64);
+            assert!(field(&s, 28, 5) == c.parameters.shift as u64);
+        }
+    }
+    ok
+}
+
+macro_rules! lpc_gate_harness {
+    ($name:ident, $reachable:expr, $(($nw:expr, $order:expr, $rw:expr)),+) => {
+        #[kani::proof]
+        #[kani::unwind(8)]
+        #[kani::stub(std::fmt::format, stub_format)]
+        #[kani::stub(VerifyError::within, stub_within)]
+        fn $name() {
+            $(
+                let ok = lpc_verify_gate::<$nw>($order, $rw);
+                if $reachable {
+                    kani::cover!(ok);
+                }
+            )+
+        }
+    };
+}
+
+//@ unit name=c18_lpc_verify_gate_o1 props=C18 tier=quick kind=bounded timeout=600 funcs="Lpc::verify; QuantizedParameters::verify; Lpc::write; Lpc::count_bits" bound="order 1, 1 warm-up sample, residual of block 2 / warm-up 1; every field value symbolic"
+//@ unit name=c18_lpc_verify_gate_o2 props=C18 tier=quick kind=bounded timeout=600 funcs="Lpc::verify; QuantizedParameters::verify; Lpc::write; Lpc::count_bits" bound="order 2, 2 warm-up samples, residual of block 2 / warm-up 2; every field value symbolic"
+//@ unit name=c18_lpc_verify_gate_o0 props=C18 tier=quick kind=bounded timeout=600 funcs="Lpc::verify; Lpc::write; Lpc::count_bits" bound="order 0, no warm-up sample, residual of block 2 / warm-up 0; every field value symbolic"
+//@ unit name=c18_lpc_verify_gate_lengths props=C18 tier=quick kind=bounded timeout=600 funcs="Lpc::verify; Lpc::write; Lpc::count_bits" bound="(#warm-up samples, order, residual warm-up) in {(1,2,1),(2,1,1),(1,1,0)}; every field value symbolic"
+lpc_gate_harness!(c18_lpc_verify_gate_o1, true, (1, 1, 1));
+lpc_gate_harness!(c18_lpc_verify_gate_o2, true, (2, 2, 2));
+lpc_gate_harness!(c18_lpc_verify_gate_o0, false, (0, 0, 0));
+lpc_gate_harness!(c18_lpc_verify_gate_lengths, false, (1, 2, 1), (2, 1, 1), (1, 1, 0));
 
 // ================================================================================================
 // Frame / MetadataBlockData / StreamInfo setters
 // ================================================================================================
 
-/// `Frame::new(header, k sub-frames)` for a header as `FrameHeader::new` returns it (it verifies:
-/// datatype::verif::c17_frame_header_new) with a symbolic channel assignment and k = 0..=3
-/// constant sub-frames as `Constant::new` returns them: returns; Ok <=> the channel count is k;
-/// Ok ==> the frame verifies and holds the k sub-frames.
-fn frame_new(k: usize) -> bool {
+/// `Frame::new(header, K sub-frames)` for a header as `FrameHeader::new` returns it (block size
+/// 1..=32767, 1..=8 independent channels or a stereo pair: datatype::verif::c17_frame_header_new)
+/// with a symbolic channel assignment and K constant sub-frames as `Constant::new` returns them:
+/// returns; Ok <=> the channel count is K; Ok ==> the frame verifies and holds the K sub-frames.
+fn frame_new<const K: usize>() -> bool {
     let n: u8 = kani::any();
+    kani::assume(1 <= n && n <= 8);
     let which: u8 = kani::any();
     let ca = match which % 4 {
         0 => ChannelAssignment::Independent(n),
@@ -806,52 +1024,56 @@ fn frame_new(k: usize) -> bool {
         2 => ChannelAssignment::RightSide,
         _ => ChannelAssignment::MidSide,
     };
-    let bs: u16 = kani::any();
-    kani::assume(bs >= 1);
+    let x: u16 = kani::any();
+    kani::assume(x < 32767);
     let mut header = FrameHeader::from_specs(
-        BlockSizeSpec::from_size(bs),
+        BlockSizeSpec::ExtraTwoBytes(x),
         ca,
         SampleSizeSpec::B16,
         SampleRateSpec::R44_1kHz,
     );
     header.set_frame_offset(FrameOffset::Frame(kani::any()));
-    kani::assume(header.verify().is_ok());
     let channels = header.channel_assignment().channels();
-    let mut subs: Vec<SubFrame> = Vec::with_capacity(4);
-    let mut i = 0;
-    while i < k {
-        let c = Constant::from_parts(bs as usize, kani::any(), 16);
-        kani::assume(c.verify().is_ok());
-        subs.push(c.into());
-        i += 1;
-    }
+    let subs: [SubFrame; K] = std::array::from_fn(|_| {
+        let dc: i16 = kani::any();
+        Constant::from_parts(x as usize + 1, dc as i32, 16).into()
+    });
     match Frame::new(header, subs.into_iter()) {
         Ok(f) => {
-            assert!(channels == k);
-            assert!(f.subframe_count() == k && f.block_size() == bs as usize);
+            assert!(channels == K);
+            assert!(f.subframe_count() == K && f.block_size() == x as usize + 1);
             assert!(f.verify().is_ok());
             true
         }
         Err(_) => {
-            assert!(channels != k);
+            assert!(channels != K);
             false
         }
     }
 }
 
-//@ unit props=C18 tier=quick kind=bounded timeout=600 funcs="Frame::new; Frame::from_parts; Frame::verify" bound="0..=3 constant sub-frames; channel assignment (every variant, every channel count u8), block size, frame number, offsets symbolic" note="serialisation of a whole frame (CRC-16 over MemSink<u64>) is bitrepr::verif_sub / C08 territory and not repeated here; consistency of the sub-frames' block size with the header is NOT checked by Frame::new / Frame::verify (see report)"
-#[kani::proof]
-#[kani::unwind(8)]
-#[kani::stub(std::fmt::format, stub_format)]
-fn c18_frame_new() {
-    frame_new(0);
-    let ok = frame_new(1);
-    kani::cover!(ok);
-    let ok = frame_new(2);
-    kani::cover!(ok);
-    let ok = frame_new(3);
-    kani::cover!(ok);
+macro_rules! frame_new_harness {
+    ($name:ident, $k:expr, $reachable:expr) => {
+        #[kani::proof]
+        #[kani::unwind(8)]
+        #[kani::stub(std::fmt::format, stub_format)]
+        #[kani::stub(VerifyError::within, stub_within)]
+        fn $name() {
+            let ok = frame_new::<$k>();
+            if $reachable {
+                kani::cover!(ok);
+            }
+            kani::cover!(!ok);
+        }
+    };
 }
+
+//@ unit name=c18_frame_new_k0 props=C18 tier=quick kind=bounded timeout=600 funcs="Frame::new; Frame::from_parts; Frame::verify" bound="no sub-frame; channel assignment (every variant, 1..=8 channels), block size, frame number symbolic"
+//@ unit name=c18_frame_new_k1 props=C18 tier=quick kind=bounded timeout=600 funcs="Frame::new; Frame::from_parts; Frame::verify" bound="1 constant sub-frame; channel assignment, block size, frame number, offset symbolic"
+//@ unit name=c18_frame_new_k2 props=C18 tier=quick kind=bounded timeout=600 funcs="Frame::new; Frame::from_parts; Frame::verify" bound="2 constant sub-frames; channel assignment, block size, frame number, offsets symbolic" note="whole-frame serialisation (CRC-16 over MemSink<u64>) is C08 / bitrepr units; Frame::new / Frame::verify do NOT check that the sub-frames' block size and width agree with the header (see report)"
+frame_new_harness!(c18_frame_new_k0, 0, false);
+frame_new_harness!(c18_frame_new_k1, 1, true);
+frame_new_harness!(c18_frame_new_k2, 2, true);
 
 fn new_unknown<const N: usize>() {
     let tag: u8 = kani::any();
@@ -955,29 +1177,4 @@ fn c18_stream_info_setters() {
     kani::cover!(r1 && r2);
     kani::cover!(!r1 && a > b);
     kani::cover!(!r2);
-}
-
-/// Replacement for `VerifyError::within` (appends a path component to an error value): the
-/// harnesses only observe `is_ok()/is_err()`, and growing a `Vec<String>` that is merged over
-/// ~30 error paths dominates `FixedLpc::verify` / `Lpc::verify` otherwise (260 s -> 31 s).
-fn stub_within(e: VerifyError, _component: &str) -> VerifyError {
-    e
-}
-#[kani::proof]
-#[kani::unwind(8)]
-#[kani::stub(std::fmt::format, stub_format)]
-#[kani::stub(find_max, contract_find_max)]
-#[kani::stub(wrapping_sum, contract_wrapping_sum)]
-#[kani::stub(VerifyError::within, stub_within)]
-fn x18_g2() {
-    fixed_lpc_new::<1>(1);
-}
-#[kani::proof]
-#[kani::unwind(8)]
-#[kani::stub(std::fmt::format, stub_format)]
-#[kani::stub(find_max, contract_find_max)]
-#[kani::stub(wrapping_sum, contract_wrapping_sum)]
-#[kani::stub(VerifyError::within, stub_within)]
-fn x18_g3() {
-    lpc_new::<1, 1>(1);
 }
